@@ -86,23 +86,25 @@ type chainRec struct {
 }
 
 type TokenReq struct {
-	Seq      int64
-	At       time.Time
-	Task     int
-	TaskName string
-	Grant    string
-	Form     url.Values
-	Auth     string
-	Code     string
-	RT       string
-	Status   int
-	Chain    int
-	Problems []string // protocol violations seen by the strict monitor
-	Fault    string
-	Answer   map[string]any
-	Done     bool
-	Forged   string   // byzantine production applied to the answer ("" = honest)
-	SignedBy *SignKey // key that signed the ID token of the answer
+	RefSecret string // the client secret this request had to carry, as of its arrival (when RefKnown)
+	RefKnown  bool
+	Seq       int64
+	At        time.Time
+	Task      int
+	TaskName  string
+	Grant     string
+	Form      url.Values
+	Auth      string
+	Code      string
+	RT        string
+	Status    int
+	Chain     int
+	Problems  []string // protocol violations seen by the strict monitor
+	Fault     string
+	Answer    map[string]any
+	Done      bool
+	Forged    string   // byzantine production applied to the answer ("" = honest)
+	SignedBy  *SignKey // key that signed the ID token of the answer
 }
 
 type AuthReq struct {
@@ -134,8 +136,12 @@ type IdP struct {
 	ClientSecret string
 	// AcceptSecret, if set, replaces the equality check on the client secret (C19).
 	AcceptSecret func(string) bool
-	RedirectURI  string
-	EndSession   string
+	// OnArrival, if set, is called when a token request reaches the provider, before any simulated latency: what
+	// the request had to carry is decided by the state of the world at that instant (C19: the Secret's value as of
+	// the last completed reconcile), not by the state when the provider gets round to processing it.
+	OnArrival   func(tr *TokenReq)
+	RedirectURI string
+	EndSession  string
 
 	w  *World
 	mu sync.Mutex
@@ -493,6 +499,9 @@ func (p *IdP) checkClientAuth(tr *TokenReq) bool {
 	if p.AcceptSecret != nil {
 		okSecret = p.AcceptSecret(sec)
 	}
+	if tr.RefKnown {
+		okSecret = sec == tr.RefSecret
+	}
 	if id != p.ClientID || !okSecret {
 		tr.Problems = append(tr.Problems, fmt.Sprintf("client-auth: wrong credentials id=%q", id))
 		return false
@@ -513,6 +522,9 @@ func (p *IdP) handleToken(w http.ResponseWriter, r *http.Request) {
 	p.mu.Lock()
 	p.TokenReqs = append(p.TokenReqs, tr)
 	p.mu.Unlock()
+	if p.OnArrival != nil {
+		p.OnArrival(tr)
+	}
 	p.w.noteTokenReq(p, tr)
 	p.w.logf("  idp %s token request grant=%s code=%s task=%s", p.Name, tr.Grant, tr.Code, tr.TaskName)
 
